@@ -98,6 +98,35 @@ Section P.
     induction l as [|x t IH]; simpl; [constructor|]. apply insert_desc_sorted, IH.
   Qed.
 
+  (* ---- the ascending stable sort *)
+  Definition le_item (a b : C * V) : Prop := leb (snd a) (snd b) = true.
+  Definition sorted_asc (l : list (C * V)) : Prop := StronglySorted le_item l.
+
+  Lemma insert_asc_perm x l : Permutation (@insert_asc C V leb x l) (x :: l).
+  Proof.
+    induction l as [|y t IH]; simpl; [reflexivity|].
+    destruct (leb (snd x) (snd y)); [reflexivity|]. rewrite IH. apply perm_swap.
+  Qed.
+  Lemma sort_asc_perm l : Permutation (@sort_asc C V leb l) l.
+  Proof.
+    induction l as [|x t IH]; simpl; [reflexivity|]. rewrite insert_asc_perm. constructor. exact IH.
+  Qed.
+  Lemma insert_asc_sorted x l : sorted_asc l -> sorted_asc (@insert_asc C V leb x l).
+  Proof.
+    unfold sorted_asc. induction l as [|y t IH]; simpl; intros Hs.
+    - constructor; constructor.
+    - inversion Hs as [|? ? Hs' Hall]; subst.
+      destruct (leb (snd x) (snd y)) eqn:E.
+      + constructor; [assumption|]. constructor; [exact E|].
+        eapply Forall_impl; [|exact Hall]. intros z Hz. unfold le_item in *. eapply leb_trans; eassumption.
+      + constructor; [apply IH; assumption|].
+        eapply Permutation_Forall; [apply Permutation_sym, insert_asc_perm|].
+        constructor; [|assumption]. unfold le_item.
+        destruct (leb_total (snd x) (snd y)); [congruence|assumption].
+  Qed.
+  Lemma sort_asc_sorted l : sorted_asc (@sort_asc C V leb l).
+  Proof. induction l as [|x t IH]; simpl; [constructor|]. apply insert_asc_sorted, IH. Qed.
+
   (* ---- three-way split of a descending list around a value *)
   Definition f_above (thr : V) (it : C * V) := ltb thr (snd it).
   Definition f_level (thr : V) (it : C * V) := eqv (snd it) thr.
@@ -365,5 +394,58 @@ Section P.
       + rewrite (Heq He). apply in_map_iff. exists (c', v'). split; [reflexivity|].
         apply in_or_app. left. exact Hina.
       + rewrite Htie by lia. apply in_or_app. left. apply in_map_iff. exists (c', v'). split; [reflexivity|exact Hina].
+  Qed.
+
+  (* ---- a strict unique maximum wins the single seat outright *)
+  Hypothesis Cdec : forall a b : C, {a = b} + {a <> b}.
+  Theorem get_n_best_unique_max votes c v : NoDup (map fst votes) -> In (c, v) votes ->
+    (forall c' v', In (c', v') votes -> c' <> c -> ltb v' v = true) ->
+    @get_n_best C V leb votes 1 = [Cand c].
+  Proof.
+    intros Hnd Hin Hmax.
+    destruct (get_n_best_spec votes 1 (le_n 1)) as [Hsmall Hbig].
+    destruct (Nat.le_gt_cases (length votes) 1) as [Hle|Hgt].
+    - destruct (Hsmall Hle) as (s & Hp & _ & ->).
+      destruct votes as [|x [|y t]]; simpl in *; [destruct Hin| |lia].
+      destruct Hin as [->|[]]. apply Permutation_sym, Permutation_length_1_inv in Hp. subst s. reflexivity.
+    - destruct (Hbig Hgt) as (above & level & below & thr & Hp & _ & Ha & Hl & Hb & Hpos & Heq & Htie).
+      assert (above = []) as -> by (destruct above; [reflexivity|simpl in Hpos; lia]).
+      simpl in *.
+      assert (Hin2 : In (c, v) (level ++ below)) by (eapply Permutation_in; [apply Permutation_sym, Hp|exact Hin]).
+      assert (Hnd2 : NoDup (map fst (level ++ below))).
+      { eapply Permutation_NoDup; [apply Permutation_map, Permutation_sym, Hp|exact Hnd]. }
+      (* every element of level has value == thr; c is the strict maximum, so level = [(c, v)] *)
+      assert (Hlevel : forall y w, In (y, w) level -> y = c).
+      { intros y w Hy. destruct (Cdec y c) as [E|E]; [exact E|exfalso].
+        assert (Hyv : In (y, w) votes) by (eapply Permutation_in; [exact Hp|apply in_or_app; left; exact Hy]).
+        pose proof (Hmax y w Hyv E) as Hlt.
+        rewrite Forall_forall in Hl. pose proof (Hl _ Hy) as Hw. simpl in Hw.
+        (* c sits in level or below: its value is <= thr == w < v *)
+        apply in_app_or in Hin2. destruct Hin2 as [Hc|Hc].
+        - pose proof (Hl _ Hc) as Hv. simpl in Hv.
+          assert (leb v w = true) by (eapply eqv_leb_l; eassumption).
+          unfold GetNBest.ltb in Hlt. rewrite H in Hlt. discriminate.
+        - rewrite Forall_forall in Hb. pose proof (Hb _ Hc) as Hv. simpl in Hv.
+          assert (leb v w = true).
+          { apply ltb_leb in Hv. unfold GetNBest.eqv in Hw. apply andb_true_iff in Hw. destruct Hw as [_ Hw].
+            eapply leb_trans; eassumption. }
+          unfold GetNBest.ltb in Hlt. rewrite H in Hlt. discriminate. }
+      assert (Hone : level = [(c, v)] \/ (2 <= length level)%nat \/ level = []).
+      { destruct level as [|[y w] [|z t]]; [right; right; reflexivity| |right; left; simpl; lia].
+        left. pose proof (Hlevel y w (or_introl eq_refl)) as ->. f_equal. f_equal.
+        assert (Hyv : In (c, w) votes) by (eapply Permutation_in; [exact Hp|left; reflexivity]).
+        clear - Hnd Hin Hyv. induction votes as [|[k u] t IH]; [destruct Hin|].
+        simpl in Hnd. inversion Hnd as [|? ? Hk Hnd']; subst.
+        destruct Hin as [Hin|Hin], Hyv as [Hy|Hy].
+        - congruence.
+        - injection Hin as -> ->. exfalso. apply Hk. apply in_map_iff. exists (c, w). auto.
+        - injection Hy as -> ->. exfalso. apply Hk. apply in_map_iff. exists (c, v). auto.
+        - apply IH; assumption. }
+      destruct Hone as [ -> | [ H2 | -> ] ].
+      + rewrite Heq by reflexivity. reflexivity.
+      + exfalso. destruct level as [|[y w] [|[z u] t]]; simpl in H2; try lia.
+        pose proof (Hlevel y w (or_introl eq_refl)). pose proof (Hlevel z u (or_intror (or_introl eq_refl))). subst.
+        simpl in Hnd2. inversion Hnd2 as [|? ? Hk _]. apply Hk. left. reflexivity.
+      + simpl in Hpos. lia.
   Qed.
 End P.
